@@ -351,6 +351,7 @@ type vec struct {
 	Bytes hx.B     `json:"bytes"`
 	Rroff []int    `json:"rroff"`
 	Alpha []bool   `json:"alpha"`
+	Canon []bool   `json:"canon"`
 }
 
 func small(v *vec) interface{} {
@@ -391,7 +392,11 @@ func replay(path, out string) {
 			}
 			alpha := v.Alpha[k]
 			// (i) built from the abstract value
-			if L.Inexpressible(a) == "" {
+			if len(v.Canon) == len(rrs) && !v.Canon[k] {
+				// neither text nor the wire yields this value (APL address with host bits): the statement is about
+				// records that came from one of the two; the unpacked twin below is exercised
+				r.stat["build-origin-skipped:value-no-text-or-wire-produces"]++
+			} else if L.Inexpressible(a) == "" {
 				rr, err := L.BuildRR(a)
 				if err != nil {
 					hx.Die("vector %s %v: %v", v.G, v.V, err)
@@ -559,7 +564,10 @@ func classify(a *wire.RR) string {
 				put(3, e.N, "longer-than-255")
 			}
 			put(10, e.N, strClass(anyBytes(v)))
-		case "hex", "b32", "b64":
+		case "hex", "b32", "b64", "raw":
+			if n := len(anyBytes(v)); n > 16383 { // text of one item beyond 32 K characters
+				put(8, e.N, "longer-than-16383")
+			}
 			if n := len(anyBytes(v)); e.Sz != "" {
 				if (a.Type == 55 && e.N == "Hit" || a.Type == 50 && e.N == "Salt") && n > 127 {
 					put(3, e.N, "longer-than-127")
@@ -571,6 +579,9 @@ func classify(a *wire.RR) string {
 		case "str":
 			put(10, e.N, strClass(anyBytes(v)))
 		case "strs", "ostr":
+			if len(anySeq(v)) > 64 {
+				put(8, e.N, "more-than-64-strings")
+			}
 			for _, s := range anySeq(v) {
 				put(10, e.N, strClass(anyBytes(s)))
 			}
